@@ -347,6 +347,50 @@ def burst_case(sess, rng):
     return run.ops
 
 
+def late_reply_case(sess, rng):
+    """The result window fills while a far-away candidate is still in flight; its reply arrives late and names a peer
+    closer than everything reported so far. What a reply carries must be used whenever it arrives (seeded change C15-d1:
+    a reply that 'cannot improve the result' was dropped together with the peers it names)."""
+    n = rng.choice([5, 6, 7])
+    kind = rng.choice(["find", "find", "putrec", "addprov", "getrec", "getprov"])
+    qu = Query(rng, rng.randrange(0, 6), kind, n, True)
+    order = sorted(range(1, n + 1), key=lambda p: dist(kind, qu.t, p))
+    k = rng.choice([2, 2, 3])                       # replication factor = size of the result window
+    near, far = order[:2], order[2:2 + k + 1]        # `near` are only learnt from replies; `far` = k + 1 candidates
+    qu.cands = list(far)
+    qu.quorum, qu.local, qu.known = "all", 0, []
+    for p in range(0, n + 3):
+        qu.behaviour[p], qu.knows[p], qu.value[p], qu.provs[p] = "ok", [], None, []
+    qu.knows[far[-2]] = [near[0]]                    # keeps the lookup alive after the window is full
+    qu.knows[far[-1]] = [near[1]]                    # the late reply
+    run = begin(sess, rng, [qu], k, k, rng.choice([0, 10]))
+    outstanding, now = [], 0
+
+    def poll():
+        for _ in range(6):
+            _, word, a = parse_obs(run.do(f"next now={now}"))
+            if word == "send":
+                outstanding.append(int(a["peer"]))
+            else:
+                return word in TERMINALS
+        return False
+
+    done = poll()
+    # answer in candidate order, the furthest one (still waiting for a slot / in flight) last
+    for _round in range(2 * n):
+        if done or run.dead or not outstanding:
+            break
+        late = far[-1]
+        first = [p for p in outstanding if p != late] or outstanding
+        p = first[0]
+        outstanding.remove(p)
+        run.do(qu.answer_op(p))
+        done = poll()
+    run.do(f"next now={now}")
+    run.do(f"dump q={qu.q}")
+    return run.ops
+
+
 def stale_case(sess, rng, par=3, nstale=1, ncands=12, timeout=3):
     """DESIGN §8-m: requests older than the peer timeout, then repeated next_action calls."""
     qu = Query(rng, 0, "find", ncands, True)
@@ -480,6 +524,8 @@ def gen_cases(rng, tier):
             yield malformed_case(sess, rng)
         for _ in range(n // 10):
             yield burst_case(sess, rng)
+        for _ in range(max(8, n // 40)):
+            yield late_reply_case(sess, rng)
         for _ in range(n):
             yield random_case(sess, rng)
         if tier in ("thorough", "search"):
